@@ -366,7 +366,7 @@ func runC18(c *vc.Ctx) error {
 	l := &lab{c: c, agg: map[string]int64{}}
 	c.Ev.Rule = "a sequence = start state (3..9 fake nodes, replica 1..5, 1..4 partitions, balance v1/v2, initial layout from the real allocation code or a random valid one incl. over-/under-replicated and removal-pending ones) " +
 		"+ 50..200 seeded events: node crash / register key expiry / delist / restart / new node, israftsynced flips, fake nodes executing the metadata (join, leave, view propagation, catch-up) with scheduler-chosen delay, register cache scans and write failures, " +
-		"and coordinator actions through the verif wrappers (doCheckNamespaces full/single, handleNamespaceMigrate, removeNamespaceFromRemovings, addNamespaceToNode, removeNamespaceFromNode, with fresh or stale arguments; addNodeToNamespaceAndWaitReady and processRemovingNodes with an already closed monitor channel = one wait-free decision step; MarkNodeAsRemoving); " +
+		"and coordinator actions through the verif wrappers (doCheckNamespaces full/single, handleNamespaceMigrate, removeNamespaceFromRemovings, addNamespaceToNode, removeNamespaceFromNode, with fresh or stale arguments; addNodeToNamespaceAndWaitReady and processRemovingNodes with an already closed monitor channel = one wait-free decision step; MarkNodeAsRemoving; the operator APIs RemoveNamespaceFromNode (random current replica at any state, sometimes a non-member / bad partition), SetClusterStableNodeNum, SwitchAutoBalance); " +
 		"live sequences additionally run rebalanceNamespace / processRemovingNodes unmodified (literal 5 s waits) in their own goroutine. " +
 		"The monitor judges every replica-info write accepted by the in-memory register. Non-trivial = a sequence in which at least one replica was actually replaced (removal marked + new node added + removal finished in one partition); distinct by the hash of the executed event list."
 	c.Ev.Assume("the replication factor of a namespace is fixed during a sequence (ChangeNamespaceMetaParam is not exercised)")
